@@ -192,8 +192,9 @@ impl CongruenceProof {
         let l = alpha_normalize(&eg.get_syn_node(&eq.l));
         let r = alpha_normalize(&eg.get_syn_node(&eq.r));
 
-        let null_l = nullify_app_ids(&l);
-        let null_r = nullify_app_ids(&r);
+        // the numbering of bound slots must not depend on the slots of the children.
+        let null_l = alpha_normalize(&nullify_app_ids(&l));
+        let null_r = alpha_normalize(&nullify_app_ids(&r));
         assert_eq!(null_l, null_r);
 
         let l_v = l.applied_id_occurrences();
